@@ -24,12 +24,13 @@ type mark struct {
 }
 
 type runSpec struct {
-	Src    string // source class of the script (tlc / cex / bytes / ops / deep / limit-... / static-...)
-	Script []byte
-	Limit  int64 // gas limit, datoshi (finite)
-	Base   int64 // price of one opcode unit in picoGAS
-	Marks  []mark
-	Note   string
+	Src         string // source class of the script (tlc / cex / bytes / ops / deep / limit-... / static-...)
+	Script      []byte
+	Limit       int64 // gas limit, datoshi (finite)
+	Base        int64 // price of one opcode unit in picoGAS
+	Marks       []mark
+	Note        string
+	ExpectFault bool // the model says that the last realised action ends in FAULT (uncaught exception)
 }
 
 type runOut struct {
@@ -173,6 +174,11 @@ func execute(res *vh.Result, tr *vh.Trace, rs runSpec) runOut {
 	}
 	tr.Emit(fin)
 	res.Traces++
+	if rs.ExpectFault && nextM == len(rs.Marks) && out.State != "FAULT" {
+		res.Inc("drift", 1)
+		res.AddDrift(map[string]any{"src": rs.Src, "what": "the model predicts an uncaught exception (FAULT)", "state": out.State,
+			"script": hex.EncodeToString(rs.Script)})
+	}
 	if nextM < len(rs.Marks) && len(rs.Marks) > 0 {
 		res.Inc("replays_not_completed", 1)
 		res.AddDrift(map[string]any{"src": rs.Src, "what": "realised behaviour stopped before its last action",
